@@ -284,6 +284,14 @@ def b_goodman(ctx):
                 ctx.fail(f'C12:closed-form:{kind}', f'{kind} {par}: cycle a={a}, m={m} -> R={Rg}: {got}, iso-damage walk gives {want}',
                          {'kind': kind, 'params': par, 'a': a, 'm': m, 'R_goal': Rg})
                 continue
+            # the transformation is homogeneous of degree 1: the same cycle in units a billion times larger (numbers of the order 1e-9) gives the same result in
+            # those units (added after seed C12-f snapped R to -inf whenever the upper load is np.isclose to 0)
+            if kind == 'goodman':
+                u_ = 1e-9
+                got_u = float(MST.fkm_goodman(np.array([a * u_]), np.array([m * u_]), par[0], par[1], Rg)[0]) / u_
+                if abs(got_u - want) > 1e-9 * max(1, want):
+                    ctx.fail(f'C12:closed-form:{kind}:unit-scale', f'{kind} {par}: cycle a={a}e-9, m={m}e-9 -> R={Rg}: {got_u}e-9, iso-damage walk gives {want}e-9',
+                             {'kind': kind, 'params': par, 'a': a, 'm': m, 'R_goal': Rg})
             # idempotence / cycle at target
             t_g = _t_of_R(Rg)
             m2 = got * t_g
